@@ -174,10 +174,11 @@ theorem rot_perm (e : Nat) (S : List Elem) (h : NoQuot e S) : (rot e S).Perm S :
     apply List.filter_congr
     intro x hx
     have := h x hx
-    simp only [Bool.not_eq_eq_eq_not, Bool.not_true, decide_eq_false_iff_not, decide_eq_true_eq]
     by_cases h1 : x.1 < e
-    · simp [h1]; omega
-    · simp [h1]; omega
+    · have h2 : ¬ e < x.1 := by omega
+      simp [h1, h2]
+    · have h2 : e < x.1 := by omega
+      simp [h1, h2]
   unfold rot
   rw [this]
   exact List.filter_append_perm _ _
